@@ -286,12 +286,12 @@ static struct Register {
 	Register() {
 		Cfg c;
 #if SEL(0)
-		addUnit<TList<MT> >("C15/CallbackList/multi", 0, c, 5, 10);
+		addUnit<TList<MT> >("C15/CallbackList/multi", 0, c, 5, 9);
 		addUnit<TList<VThreading> >("C15/CallbackList/vmutex", 0, c, 4, 9);
 #endif
 #if SEL(1)
-		addUnit<TDisp<MT> >("C15/EventDispatcher/multi", 0, c, 5, 10);
-		addUnit<TDisp<ST> >("C15/EventDispatcher/single", 1, c, 5, 10);
+		addUnit<TDisp<MT> >("C15/EventDispatcher/multi", 0, c, 5, 9);
+		addUnit<TDisp<ST> >("C15/EventDispatcher/single", 1, c, 5, 9);
 #endif
 #if SEL(2)
 		addUnit<TQueue<MT> >("C15/EventQueue/multi", 0, c, 5, 9);
